@@ -331,7 +331,11 @@ const sketchK = 4096
 
 func (a *agg) add(r *EpisodeResult) {
 	a.episodes++
-	a.evals += r.Evals
+	if r.Evals > 0 {
+		a.evals += r.Evals
+	} else {
+		a.evals++
+	}
 	a.decisions += int64(r.Stats.Decisions)
 	a.switches += int64(r.Stats.Switches)
 	a.vmSteps += int64(r.Stats.VMSteps)
@@ -696,10 +700,7 @@ func sampleOf(id string, seed uint64, tier string, r *EpisodeResult) interface{}
 }
 
 func writeEvidence(pc *propCfg, tier string, seed uint64, a *agg, runWall, wall time.Duration, nViol int, known map[string]int, detK int, samples []interface{}) {
-	evals := a.episodes
-	if a.evals > 0 {
-		evals = a.evals
-	}
+	evals := a.evals // executions: one per episode, or the number of runs/sub-episodes an episode performed
 	cov := map[string]interface{}{
 		"evaluations":         evals,
 		"episodes":            a.episodes,
